@@ -201,6 +201,37 @@ func storeOracle(w *World) string {
 	if fail != "" {
 		return fail
 	}
+	// copying the persistent store (MergeState out of it, into a memory store and into another persistent store):
+	// the copy holds every node under its own hash and as many nodes as the source
+	if w.PN != nil {
+		src := 0
+		_ = w.PN.Iterate(context.Background(), func(ctx context.Context, key util.Key, node util.Node) error { src++; return nil })
+		p2 := fmt.Sprintf("mptcopy-%d", nextDev())
+		pn2, err := util.NewPNodeDB(p2, "")
+		if err != nil {
+			panic(err)
+		}
+		defer resetDev(p2)
+		for name, dst := range map[string]util.NodeDB{"a memory store": util.NewMemoryNodeDB(), "another persistent store": pn2} {
+			if err := util.MergeState(context.Background(), w.PN, dst); err != nil {
+				return fmt.Sprintf("MergeState from the persistent store into %s: %v", name, err)
+			}
+			n := 0
+			_ = dst.Iterate(context.Background(), func(ctx context.Context, key util.Key, node util.Node) error {
+				n++
+				if fail == "" && !bytes.Equal(node.GetHashBytes(), key) {
+					fail = fmt.Sprintf("after MergeState from the persistent store into %s: key %x holds a node hashing to %x", name, []byte(key), node.GetHashBytes())
+				}
+				return nil
+			})
+			if fail == "" && n != src {
+				fail = fmt.Sprintf("after MergeState from the persistent store (%d nodes) into %s the copy holds %d nodes", src, name, n)
+			}
+			if fail != "" {
+				return fail
+			}
+		}
+	}
 	// a trie re-read from the store alone re-computes to its root
 	root := w.T.GetRoot()
 	if root == nil {
@@ -294,7 +325,7 @@ func C14(tier rt.Tier) int {
 		byteSweep(rep, "stored-under-own-hash", []StoreKind{Mem, LevelP, PDirect}, 3, storeOracle)
 	}
 	rep.RunVariant()
-	rep.Set("rule", "BFS over all histories with separator-laden/binary values and negative/zero/huge versions on memory, layered, doubly layered and persistent(stand-in) stores, the trie also sitting directly on the persistent store; at every state every node of every store level must be keyed by GetHashBytes(), CreateNode(Encode(n)) must have the same hash and encoding, and a trie re-read from the store must reference every node by its recomputed hash")
+	rep.Set("rule", "BFS over all histories with separator-laden/binary values and negative/zero/huge versions on memory, layered, doubly layered and persistent(stand-in) stores, the trie also sitting directly on the persistent store; at every state every node of every store level must be keyed by GetHashBytes(), CreateNode(Encode(n)) must have the same hash and encoding, a copy of the persistent store made with MergeState (into memory and into a second persistent store) must hold the same number of nodes, each under its own hash, and a trie re-read from the store must reference every node by its recomputed hash")
 	rep.Assumption("RocksDB is replaced by an in-memory write-log stand-in; PNodeDB encoding/decoding code is real")
 	return rep.End()
 }
